@@ -19,7 +19,7 @@ class P(vlib.Prop):
         "shlex.Split and time.Format(RFC3339) are Section variables of the model; the correspondence instantiates them with the results of the real functions on the strings of each case",
         "Go map iteration order is an explicit permutation parameter quantified in c12_env / c12_index / c12_config_mapping",
         "int64 arithmetic in BuildIndex is modelled on Z; c12_append_offset bounds the result by pos+size+512, so no wrap-around below 2^63-512",
-        "a file hole left by Seek reads as zero bytes (the bundle is written to a fresh regular file)",
+        "the bytes between the end of manifest.json and the append offset are the zero padding go-containerregistry's tar writer already wrote (BuildIndex seeks back over the end-of-archive marker); the harness observes the first non-zero byte after manifest.json, also over a stale longer output file",
     )
     level_text = ("Theorems about an executable model of the OCI emitters' own logic, whose constants, tables and append-offset arithmetic are regenerated from "
                   "index.go / image.go / types.go on every run: c12_append_offset (for all positions and sizes the offset BuildIndex seeks to is the least multiple of 512 "
